@@ -941,7 +941,6 @@ func c15Long(c *core.Ctx, env *c15Env, p c15Params) {
 	c.Sample(map[string]interface{}{"scenario": "long history", "expired_events": p.Events, "listener_goroutines_after": now.goroutines, "client_subscriptions_after": now.ncSubs})
 }
 
-
 // c15Barrage: requesters send query requests back to back (one outstanding
 // each) from the start of a short query event until well after its expiry, so
 // that requests are in flight on the connection at the very moment the service
